@@ -33,6 +33,8 @@ type workload struct {
 	ReadMember map[int][]string
 	DupActivity string // activity id delivered several times ("" if none)
 	ExpectDeadlock bool
+	OutboxIDs      bool // ids are issued per run: compare the outbox with the returned Location headers
+	seqOutcomes    []map[string][]string
 }
 
 func likeOf(id, actor, obj string) M {
@@ -135,7 +137,7 @@ func workloads(threeWay bool) []workload {
 	{
 		sc := outboxScenario(nil, nil)
 		sc.Requests = nil
-		w := workload{Name: "W6.posts-one-outbox", Sc: sc, Cols: []string{"outbox:" + aliceOut()}, Adds: map[int][][2]string{}}
+		w := workload{Name: "W6.posts-one-outbox", Sc: sc, Cols: []string{"outbox:" + aliceOut()}, Adds: map[int][][2]string{}, OutboxIDs: true}
 		for i := 0; i < n; i++ {
 			sc.Requests = append(sc.Requests, sim.PostOutboxReq(aliceOut(), withCtx(M{"type": "Listen", "actor": alice(), "to": carol(), "object": fmt.Sprintf("%s/songs/%d", R1, i)})))
 		}
@@ -153,6 +155,55 @@ func workloads(threeWay bool) []workload {
 		sc.Requests = append(sc.Requests, sim.GetReq("Handler", L+"/notes/1"))
 		w.Reads[2] = L + "/notes/1"
 		ws = append(ws, w)
+	}
+	// W9 client Likes -> liked collection (and outbox)
+	{
+		sc := outboxScenario(nil, nil)
+		sc.Requests = nil
+		w := workload{Name: "W9.client-likes-liked", Sc: sc, Cols: []string{"col:" + alice() + "/liked"}, Adds: map[int][][2]string{}}
+		for i := 0; i < n; i++ {
+			obj := fmt.Sprintf("%s/notes/w9-%d", R1, i)
+			sc.Requests = append(sc.Requests, sim.PostOutboxReq(aliceOut(), withCtx(M{"type": "Like", "actor": alice(), "to": carol(), "object": obj})))
+			w.Adds[i] = [][2]string{{"col:" + alice() + "/liked", obj}}
+		}
+		ws = append(ws, w)
+	}
+	// W10 Accepts of two stored Follows -> following
+	{
+		sc := inboxScenario(nil, nil)
+		sc.Requests = nil
+		w := workload{Name: "W10.accepts-following", Sc: sc, Cols: []string{"inbox:" + aliceIn(), "col:" + alice() + "/following"}, Adds: map[int][][2]string{}}
+		who := []string{carol(), dave(), erin()}
+		for i := 0; i < n; i++ {
+			fid := fmt.Sprintf("%s/act/follow-%d", L, i)
+			sc.Store[fid] = M{"@context": AS, "type": "Follow", "id": fid, "actor": alice(), "object": who[i]}
+			id := fmt.Sprintf("%s/act/w10-%d", R1, i)
+			sc.Requests = append(sc.Requests, sim.PostInboxReq(aliceIn(), withCtx(M{"type": "Accept", "id": id, "actor": who[i], "object": fid})))
+			w.Adds[i] = [][2]string{{"inbox:" + aliceIn(), id}, {"col:" + alice() + "/following", who[i]}}
+		}
+		ws = append(ws, w)
+	}
+	// W11 federated Like || client Update of one owned object: both effects must survive
+	{
+		sc := inboxScenario(nil, func(sc *sim.Scenario) { ownedNote(sc, 1, M{"summary": "old"}) })
+		sc.Requests = nil
+		w := workload{Name: "W11.like-vs-client-update", Sc: sc, Cols: []string{"obj:" + L + "/notes/1", "inbox:" + aliceIn()}, Adds: nil}
+		sc.Requests = append(sc.Requests, sim.PostInboxReq(aliceIn(), withCtx(likeOf(R1+"/act/w11-like", carol(), L+"/notes/1"))))
+		sc.Requests = append(sc.Requests, sim.PostOutboxReq(aliceOut(), withCtx(M{"type": "Update", "actor": alice(), "object": M{"type": "Note", "id": L + "/notes/1", "content": "edited"}})))
+		if !threeWay {
+			ws = append(ws, w)
+		}
+	}
+	// W12 federated Announce || Remove/Add on one owned collection and object (order-dependent outcomes allowed)
+	{
+		sc := inboxScenario(nil, func(sc *sim.Scenario) { ownedCollection(sc, "c1", false, R1+"/notes/x", R2+"/notes/keep") })
+		sc.Requests = nil
+		w := workload{Name: "W12.add-vs-remove", Sc: sc, Cols: []string{"col:" + L + "/collections/c1", "inbox:" + aliceIn()}, Adds: nil}
+		sc.Requests = append(sc.Requests, sim.PostInboxReq(aliceIn(), withCtx(M{"type": "Add", "id": R1 + "/act/w12-add", "actor": carol(), "object": R1 + "/notes/x", "target": L + "/collections/c1"})))
+		sc.Requests = append(sc.Requests, sim.PostInboxReq(aliceIn(), withCtx(M{"type": "Remove", "id": R1 + "/act/w12-rm", "actor": carol(), "object": R1 + "/notes/x", "target": L + "/collections/c1"})))
+		if !threeWay {
+			ws = append(ws, w)
+		}
 	}
 	// W8 two forwarding-eligible activities naming two owned collections in opposite order
 	{
@@ -186,6 +237,8 @@ func readCols(s sim.Snapshot, cols []string) map[string][]string {
 			out[c] = outboxItems(s, id)
 		case "col":
 			out[c] = collectionItems(s, id)
+		case "obj":
+			out[c] = []string{jstr(s.Store[id])}
 		case "likes", "shares":
 			m, _ := s.Store[id].(map[string]interface{})
 			lm, _ := m[kind].(map[string]interface{})
@@ -244,6 +297,35 @@ func runScheduled(w workload, choose func(step int, runnable []string, current s
 func sequentialCols(w workload) (map[string][]string, *sim.Result) {
 	res := sim.Run(w.Sc)
 	return readCols(res.After, w.Cols), res
+}
+
+// sequentialOutcomes runs the requests one after another in every order.
+func sequentialOutcomes(w workload) []map[string][]string {
+	n := len(w.Sc.Requests)
+	idx := make([]int, n)
+	for i := range idx {
+		idx[i] = i
+	}
+	var outs []map[string][]string
+	var rec func(k int)
+	rec = func(k int) {
+		if k == n {
+			sc := cloneScenario(w.Sc)
+			sc.Requests = nil
+			for _, i := range idx {
+				sc.Requests = append(sc.Requests, w.Sc.Requests[i])
+			}
+			outs = append(outs, readCols(sim.Run(sc).After, w.Cols))
+			return
+		}
+		for i := k; i < n; i++ {
+			idx[k], idx[i] = idx[i], idx[k]
+			rec(k + 1)
+			idx[k], idx[i] = idx[i], idx[k]
+		}
+	}
+	rec(0)
+	return outs
 }
 
 // porcupine model: a set of ids per collection, reads must see the whole set.
@@ -348,12 +430,31 @@ func judgeExecution(r *verdict.Run, w workload, er execResult, seqCols map[strin
 	// mutual exclusion was really given (sanity of the scheduler)
 	// conservation
 	got := readCols(res.After, w.Cols)
-	if w.Name != "W6.posts-one-outbox" {
-		for c, want := range seqCols {
-			if !sameMultiset(got[c], want) {
-				kind := c[:strings.Index(c, ":")]
-				viol("lost-or-duplicated-update", "collection "+kind, w.Name, fmt.Sprintf("%s holds %v after the concurrent run; the same requests one after another give %v", c, got[c], want))
+	if !w.OutboxIDs {
+		// the final state must be the one some sequential order produces
+		matched := false
+		var firstDiff string
+		for _, want := range w.seqOutcomes {
+			ok := true
+			for c, wv := range want {
+				if !sameMultiset(got[c], wv) {
+					ok = false
+					if firstDiff == "" {
+						firstDiff = fmt.Sprintf("%s holds %v after the concurrent run; the same requests one after another give %v", c, got[c], wv)
+					}
+				}
 			}
+			if ok {
+				matched = true
+				break
+			}
+		}
+		if !matched {
+			kind := "state"
+			if i := strings.Index(firstDiff, ":"); i > 0 {
+				kind = firstDiff[:i]
+			}
+			viol("lost-or-duplicated-update", "collection "+kind, w.Name, firstDiff)
 		}
 	} else {
 		// outbox ids are issued per run: compare with the Location headers
@@ -531,6 +632,7 @@ func init() {
 			for _, w := range workloads(true) {
 				if w.Name == rep.Case.Workload {
 					seqCols, seqRes := sequentialCols(w)
+					w.seqOutcomes = sequentialOutcomes(w)
 					er := runScheduled(w, func(step int, runnable []string, current string, curRun bool) string {
 						if step < len(rep.Case.Schedule) {
 							return rep.Case.Schedule[step]
@@ -551,6 +653,9 @@ func init() {
 		add := func(w workload, bound int) {
 			jobs = append(jobs, func() {
 				seqCols, seqRes := sequentialCols(w)
+				if !w.OutboxIDs {
+					w.seqOutcomes = sequentialOutcomes(w)
+				}
 				b := bound
 				if w.ExpectDeadlock && b < 2 {
 					b = 2
@@ -646,7 +751,7 @@ func init() {
 			if w.ExpectDeadlock {
 				continue
 			}
-			seqCols, _ := sequentialCols(w)
+			seqOuts := sequentialOutcomes(w)
 			for it := 0; it < iters; it++ {
 				g := prng.New(verdict.Seed(), "c08race."+w.Name, it)
 				world := w.Sc.Build()
@@ -685,7 +790,7 @@ func init() {
 				}
 				total++
 				got := readCols(world.Snapshot(), w.Cols)
-				if w.Name == "W6.posts-one-outbox" {
+				if w.OutboxIDs {
 					var locs []string
 					for _, rp := range resps {
 						locs = append(locs, rp.Header["Location"])
@@ -696,11 +801,21 @@ func init() {
 					}
 					continue
 				}
-				for c, want := range seqCols {
-					if !sameMultiset(got[c], want) {
-						viols++
-						fmt.Printf("RACE-VIOLATION lost-or-duplicated-update|%s|%s holds %v, sequential %v\n", w.Name, c, got[c], want)
+				matched := false
+				for _, want := range seqOuts {
+					ok := true
+					for c, wv := range want {
+						if !sameMultiset(got[c], wv) {
+							ok = false
+						}
 					}
+					if ok {
+						matched = true
+					}
+				}
+				if !matched {
+					viols++
+					fmt.Printf("RACE-VIOLATION lost-or-duplicated-update|%s|final state %v matches no sequential order\n", w.Name, got)
 				}
 			}
 		}
